@@ -124,10 +124,12 @@ func (it *Iterator) Seek(target []byte) bool {
 		return false
 	}
 
-	// Binary search through restart points
+	// Binary search for the last restart point whose key is <= target: the
+	// first key >= target is in the interval that starts there (or, if every
+	// restart key is > target, it is the very first entry)
 	left, right := 0, len(it.reader.restartPoints)-1
 	for left < right {
-		mid := (left + right) / 2
+		mid := (left + right + 1) / 2
 		it.restartIdx = mid
 		it.currentPos = it.reader.restartPoints[mid]
 
@@ -136,10 +138,10 @@ func (it *Iterator) Seek(target []byte) bool {
 			return false
 		}
 
-		if bytes.Compare(key, target) < 0 {
-			left = mid + 1
+		if bytes.Compare(key, target) <= 0 {
+			left = mid
 		} else {
-			right = mid
+			right = mid - 1
 		}
 	}
 
@@ -151,6 +153,8 @@ func (it *Iterator) Seek(target []byte) bool {
 	// First check the current position
 	key, val, ok := it.decodeCurrent()
 	if !ok {
+		it.currentKey = nil
+		it.currentVal = nil
 		return false
 	}
 
@@ -163,17 +167,11 @@ func (it *Iterator) Seek(target []byte) bool {
 
 	// Otherwise, scan forward until we find the first key >= target
 	for {
-		savePos := it.currentPos
 		key, val, ok = it.decodeNext()
 		if !ok {
-			// Restore position to the last valid entry
-			it.currentPos = savePos
-			key, val, ok = it.decodeCurrent()
-			if ok {
-				it.currentKey = key
-				it.currentVal = val
-				return true
-			}
+			// Every key of the block is < target
+			it.currentKey = nil
+			it.currentVal = nil
 			return false
 		}
 
